@@ -1117,7 +1117,10 @@ func (ps *prefixSim) run(fn *ssa.Function) (emitted bool, ret ssa.Value, undecid
 				}
 				// a helper of the command that produces the prefix (or writes it)
 				if g := staticCallee(x); g != nil && fnPkgKey(g) == "xsel" && g != fn {
-					if bt, ok := g.Signature.Results().At(0).Type().Underlying().(*types.Basic); g.Signature.Results().Len() == 1 && ok && bt.Kind() == types.String {
+					if g.Signature.Results().Len() != 1 {
+						continue
+					}
+					if bt, ok := g.Signature.Results().At(0).Type().Underlying().(*types.Basic); ok && bt.Kind() == types.String {
 						sub := &prefixSim{ps.suppress, ps.dash, ps.suppressVar, ps.depth + 1}
 						_, rv, und := sub.run(g)
 						if und != "" {
